@@ -239,7 +239,7 @@ def call_np(an, f, args, kwargs, node):
         if t.kind != '1d':
             raise Unsupported('diff of ' + t.kind)
         nn = args[1] if len(args) > 1 else kw.get('n', 1)
-        if nn != 1:
+        if not (isinstance(nn, int) and not isinstance(nn, bool) and 1 <= nn <= 512) or (nn != 1 and ('prepend' in kw or 'append' in kw)):
             raise Unsupported('diff order')
         pre = kw.get('prepend')
         if 'append' in kw:
@@ -257,10 +257,13 @@ def call_np(an, f, args, kwargs, node):
             else:
                 pl = level_of(pre)
             return an.new_arr(ArrT(t.len, t.lag, lmax(t.base, pl)))
-        ln = an.binop('Sub', t.len, 1)
+        # the difference of order m has len - m entries (none when the input is shorter) and entry k reads a[k .. k + m]
+        ln = an.binop('Sub', t.len, nn)
+        if nn != 1:
+            ln = an.call_builtin('max', [ln, 0], {}, node)
         keep = t.fill is not None and is_nan(t.fill)
-        cup = simp(zt(t.cupto) - 1) if keep else 0
-        return an.new_arr(ArrT(ln, ladd(t.lag, 1) if t.lag is not None else None, t.base, cup if keep else 0, t.fill if keep else None))
+        cup = simp(zt(t.cupto) - nn) if keep else 0
+        return an.new_arr(ArrT(ln, ladd(t.lag, nn) if t.lag is not None else None, t.base, cup if keep else 0, t.fill if keep else None))
     if f in ('concatenate', 'hstack', 'append', 'insert'):
         if f == 'append':
             parts = [args[0], args[1]]
@@ -367,8 +370,11 @@ def concatenate(an, parts):
                 raise Unsupported('concatenate of ' + t.kind)
             pl, plen, plag = t.base, t.len, t.lag
             pfill, pcup = t.fill, t.cupto
-        elif scalar_or_none(p):
-            raise Unsupported('concatenate of a scalar')
+        elif scalar_or_none(p) and p is not None and not isinstance(p, (bool, BoolV)):
+            # numpy treats a scalar part (np.append(arr, x)) as a one-element array
+            pl, plen, plag = level_of(p), 1, None
+            pfill = p if isinstance(p, (int, float)) else None
+            pcup = 1 if pfill is not None else 0
         else:
             raise Unsupported('concatenate part ' + type(p).__name__)
         offt = len_term(off)
